@@ -583,6 +583,10 @@ del a0[t(1, 0):t(2, 2)]
 del o0.p
 del a0[t(1, 0)], d0[t(2, 1)]
 x = t(1)|y = t(2)|del (x, y)
+del (a0[t(1, 0)], a0[t(2, 0)])
+del [a0[t(1, 0)], d0[t(2, 1)]], a0[t(3, 0)]
+del (a0[t(1, 1)], (a0[t(2, 0)], o0.p))
+x = t(1)|del (x, zz, a0[t(2, 0)])
 x = t(1)|y = t(2)|del x, y
 x = t(1)|del [x]
 x = t(1); y = 1
